@@ -92,6 +92,12 @@ CHECKS["C17"] = (
     "Precedence between equally near definers or where BFS-nearest and MRO disagree is don't-care; inherited properties/nested classes are counted but not required.",
     "6/C17",
 )
+CHECKS["C14"] = (
+    "bounded-exhaustive enumeration of signatures x docstring type situations, each analysed by the real pipeline under all four (preference, warning) option pairs; relational oracle across the four runs",
+    "Per parameter and per result: hint in {absent,int,str,list[int]} x docstring type in {absent,int,str,list[int]}; one varied parameter (alone and next to a fixed one) for function / method / constructor, one varied result, two results (numpydoc); thorough adds the full product for two parameters x 5 result situations; x NumPy / Google / reST. Each packed group runs under CODE/DOCSTRING x WARN/IGNORE: hint wins under CODE, docstring type under DOCSTRING, the only source under either; all output files byte-identical between WARN and IGNORE; the number of discrepancy WARNING records naming the function equals the number of its parameters/results with two different types, and is 0 with IGNORE.",
+    "Docstring defaults/optionality under DOCSTRING preference are don't-care; correspondence of documented results to tuple elements is only assumed when counts match.",
+    "6/C14",
+)
 NOT_YET = {}  # id -> reason (filled for properties without a check)
 
 props = [json.loads(l) for l in open(V / "properties.jsonl")]
